@@ -198,18 +198,35 @@ impl LruManager {
     /// Checkpoint the current state to disk.
     ///
     /// 1. Serialize the table with MD5 hash
-    /// 2. Write to new generation file
+    /// 2. Write to a temporary file, fsync, rename to the new generation file
     /// 3. Delete previous generation file
+    ///
+    /// The temporary name (`<generation>.tmp`) is not a generation filename,
+    /// so `find_latest_lru_file` never sees a partially written checkpoint:
+    /// after a crash the newest `.lru` file is always a complete one.
     pub async fn checkpoint_to_disk(&mut self) -> crate::Result<()> {
+        use tokio::io::AsyncWriteExt;
+
         let data = serialize(&self.header, &self.entries);
         let path = lru_file_path(&self.data_dir, self.generation);
+        let temp_path = path.with_extension("tmp");
 
-        tokio::fs::write(&path, &data).await.map_err(|e| {
-            crate::StorageError::Cache(format!(
+        let written = async {
+            let mut file = tokio::fs::File::create(&temp_path).await?;
+            file.write_all(&data).await?;
+            file.sync_all().await?;
+            drop(file);
+            tokio::fs::rename(&temp_path, &path).await
+        }
+        .await;
+
+        if let Err(e) = written {
+            let _ = tokio::fs::remove_file(&temp_path).await;
+            return Err(crate::StorageError::Cache(format!(
                 "failed to write LRU checkpoint to {}: {e}",
                 path.display()
-            ))
-        })?;
+            )));
+        }
 
         debug!(
             "LRU checkpoint: generation {} -> {}",
